@@ -167,12 +167,30 @@ def evaluate(case):
                 gota = ice.depth_with_index(np.array([nn]))
             if not (float(got) == want and float(gota[0]) == want):
                 fail("inverse-clamp", "depth_with_index(%r) = %r / array %r, expected clamp to %r" % (nn, got, gota, want), n=nn)
+        # the gradients of all depths are asked for first and looked at afterwards (each answer is its own object: a later
+        # call must not rewrite an earlier answer); the first answer is also overwritten by the caller before the second call
+        kept = {}
+        for z in inside:
+            kept[z] = ice.gradient(z)
+            if len(kept) == 1:
+                first_copy = np.array(kept[z], dtype=float).copy()
+                first_key = z
+        if kept:
+            try:
+                scratch = ice.gradient(first_key)
+                scratch += 7.0
+            except (TypeError, ValueError):
+                pass
+            kept[first_key] = ice.gradient(first_key)
+            if not np.array_equal(np.asarray(kept[first_key], float), first_copy):
+                fail("gradient-history", "gradient(%r) answers %r after the caller modified an earlier answer in place (before: %r)"
+                     % (first_key, kept[first_key], first_copy), z=first_key)
         for z in inside:
             h = 2.0 ** -8
             if z - h < lo or z + h > hi:
                 continue
             n += 1
-            g = ice.gradient(z)
+            g = kept[z]
             num = (float(ice.index(z + h)) - float(ice.index(z - h))) / (2 * h)
             if np.shape(g) != (3,) or g[0] != 0 or g[1] != 0:
                 fail("gradient-shape", "gradient(%r) = %r" % (z, g), z=z)
